@@ -51,6 +51,26 @@ CHECKS = {
    "DESIGN.md section 4 / C16",
    "exhaustive only for the two enumerated sub-spaces; values are generated within the limits the library enforces when sending.",
    "runtime monitoring: round-trip oracle (value equality) over enumerated and generated values; ack packet vs hook-recorded set"),
+ "C07": ("fault_enumeration",
+   "Exhaustive grid (256 prefix bytes x lengths {0..64,1077,1078,1079,1399,1400} x 3 bodies x 7 protocol states, per engine) plus sampled mutations of genuine datagrams of all kinds, re-addressed datagrams, foreign keys / protocol ids, crafted sequences incl. 2^64-1, and corrupted tokens through read -> NetcodeClient::new -> update; every call guarded (panic capture + watchdog); for non-authentic input the observable snapshot before/after must be equal and genuine traffic must still be accepted afterwards. Checked and shipped builds.",
+   "DESIGN.md section 4 / C07",
+   "exhaustive refers to the grid only; 'not authentic' is by construction; replays of genuine datagrams are only required not to panic here (their effect is C04/C18).",
+   "runtime monitoring: enumerated + sampled hostile injection with snapshot-equality oracle and catch_unwind/watchdog"),
+ "C17": ("fault_enumeration",
+   "Every single-bit flip and every truncation of sample datagrams of every kind in their accepting state, and of token sealed part / bound public fields, must be rejected with the snapshot unchanged; opening under another key / protocol id must fail; an offline nonce table over every datagram emitted in honest multi-client histories (retries, denials, re-challenges, keep-alives, payloads, disconnects, reconnects, fail-over) requires (key, sequence) -> bytes to be a function, likewise token_sequence -> challenge blob.",
+   "DESIGN.md section 4 / C17",
+   "AEAD unforgeability is assumed; key identity is established by opening datagrams with the minted keys; tokens list one live address (fail-over with the same token to the same server is outside 'one connection attempt').",
+   "runtime monitoring: exhaustive bit-flip / truncation tamper oracle + offline nonce-uniqueness checker over the emitted-datagram log"),
+ "C19": ("exploration",
+   "For every datagram from an address without a completed handshake (server empty / partly filled / full): at most one reply, to the source address, strictly smaller than the input, and none unless the input carries a valid token or valid response according to the harness's own ledger; update_client polled to confirm nothing else leaves.",
+   "DESIGN.md section 4 / C19",
+   "validity comes from the harness ledger (it minted the tokens and saw the issued challenges).",
+   "runtime monitoring: reply-size / destination oracle over generated request and response datagrams"),
+ "C20": ("exploration",
+   "Real NetcodeServerTransport / NetcodeClientTransport over loopback UDP through a seeded in-path relay (drop, duplicate, delay, replay, corrupt), single-threaded virtual time: lock-step set equality right after every server transport update, event alternation, disconnect propagation (few ticks on a clean relay, by the end of the run otherwise), end-to-end channel oracles, no unsolicited session end in interference-only runs, datagram size <= 1400. Thorough adds an AddressSanitizer build.",
+   "DESIGN.md section 4 / C20",
+   "single-threaded endpoints; bounds on virtual time; loopback delivery treated as at most one tick late.",
+   "runtime monitoring: quiescent-point set equality + event alternation model + end-to-end history oracles over real sockets"),
 }
 
 NOT_YET = {}
